@@ -51,9 +51,11 @@ TRUSTED_BASE = [
     "Python object aliasing (a caller mutating a Token after offering it) is outside the model: tokens are values",
 ]
 ASSUMPTIONS = [
-    "completeness and order independence: SHA3-256 does not collide on the offered tokens, and the waiting area "
-    "(unchained_max_size) never overflows on the orders compared",
-    "unserialize_public raising struct.error on a trailing partial chunk is mirrored, not judged",
+    "completeness and order independence: SHA3-256 does not collide on the signed bytes of the digest-sized offered "
+    "tokens (others are ignored by gather_token), and the waiting area (unchained_max_size) never overflows on the "
+    "orders compared",
+    "unserialize_public raising struct.error on a trailing partial chunk is mirrored by the model and compared only "
+    "while the implementation does raise it; refusing the string any other way is neither judged nor compared",
 ]
 
 SPEC_CAP = 100          # the waiting area the property speaks of; a tree is left on its constructor default for it
@@ -130,6 +132,11 @@ def mk_token(sk, prev: bytes, content: bytes, label="real", good=True) -> dict:
             "label": label}
 
 
+def wellformed(t: dict) -> bool:
+    """both pointers have the size of a SHA3-256 digest (the only shape the wire format can carry)"""
+    return len(t["prev"]) == 64 and len(t["chash"]) == 64
+
+
 def tk_hid(t: dict) -> bytes:
     return sha3(bytes.fromhex(t["prev"]) + bytes.fromhex(t["chash"]) + bytes.fromhex(t["sig"]))
 
@@ -162,6 +169,11 @@ def build_tokens(rng, sk, fk, genesis: bytes, parents: list[int], mix: list[str]
         elif kind == "foreign-tree":   # a token of the other key's own tree
             fgen = sha3(fk.pub().key_to_bin())
             t = mk_token(fk, fgen, b"ftree%d" % rng.randrange(1 << 30), label=kind, good=False)
+        elif kind == "resplit":
+            # the same signed bytes cut at another place: same signature, same hash, `==` the original, other pointers
+            k = rng.choice([31, 30, 33, 16, 0, 40])
+            both = bytes.fromhex(base["prev"]) + bytes.fromhex(base["chash"])
+            t = dict(base, prev=both[:k].hex(), chash=both[k:].hex(), content=None, label="resplit")
         elif kind in ("resigned", "resigned-child"):
             # the same pointer pair signed a second time (another valid signature with ECDSA keys, the identical
             # token with deterministic ones): a different token with its own hash and its own children
@@ -272,6 +284,8 @@ def make_own_scenario(rng) -> dict:
             contents.append(None)
         if rng.random() < 0.15:
             ops.append([rng.choice(["verify", "path"]), rng.randrange(len(contents)), rng.choice([1000, 1, 2, n, -1])])
+        if rng.random() < 0.08:     # a pointer that is not a digest: accepted and signed?  then it has to round-trip
+            ops.append(["rawadd", rng.choice(["616263", "00" * 20, "ab" * 33, ""])])
         if rng.random() < 0.12:     # the owner's tree is offered one of its own tokens from outside
             ops.append(["gather", rng.randrange(len(contents)), rng.choice(["pub", "hash"])])
     ops += closing_ops(rng, [], len(contents), contents)
@@ -308,7 +322,8 @@ def make_scenario(rng, size_class: str | None = None) -> dict:
         cap = rng.choice([1, 2, 3, 4, 6, 10])
     shape = rng.choice(["chain", "star", "binary", "comb", "tworoots", "wide", "random", "random"])
     parents = parents_for(rng, n, shape)
-    kinds = ["forged-sig", "forged-chash", "forged-prev", "foreign", "foreign-tree", "dangling", "dangling-child"]
+    kinds = ["forged-sig", "forged-chash", "forged-prev", "foreign", "foreign-tree", "dangling", "dangling-child",
+             "resplit", "resplit"]
     nmix = rng.choice([0, 0, 1, 2, 3, 5]) if n < 50 else rng.choice([0, 1])
     mix = [rng.choice(kinds) for _ in range(nmix)]
     if keytype == "very-low" and n < 50:     # ECDSA: two valid signatures of one pointer pair exist
@@ -320,12 +335,16 @@ def make_scenario(rng, size_class: str | None = None) -> dict:
     for i in arr:
         form = rng.choice(["pub", "pub", "full", "hash", "dbgood", "dbbad", "fullbad"]) if toks[i]["content"] is not None \
             else rng.choice(["hash", "dbbad", "fullbad"])
+        if not wellformed(toks[i]):
+            form = "hash"
         ops.append(["gather", i, form])
         r = rng.random()
         if r < 0.2:     # duplicate, maybe in another form (with real or with foreign content), now or later
             j = rng.choice(arr)
             f2 = rng.choice(["pub", "full", "full", "fullbad", "fullbad"]) if toks[j]["content"] is not None \
                 else rng.choice(["hash", "fullbad"])
+            if not wellformed(toks[j]):
+                f2 = "hash"
             ops.append(["gather", j, f2])
         elif r < 0.26:
             ops.append(["verify", rng.randrange(len(toks)), rng.choice([1000, 1000, 1, 2, 3, 0, -1, n, n + 1])])
@@ -334,7 +353,9 @@ def make_scenario(rng, size_class: str | None = None) -> dict:
         elif r < 0.33:
             ops.append(["missing"])
     ops += closing_ops(rng, toks, n)
-    return {"key": keyhex, "fkey": fkeyhex, "keytype": keytype, "cap": cap, "shape": shape, "order": order,
+    owner_tree = rng.random() < 0.3      # the owner's own tree (private_key mode) is offered all of this
+    return {"owner_tree": owner_tree,
+            "key": keyhex, "fkey": fkeyhex, "keytype": keytype, "cap": cap, "shape": shape, "order": order,
             "size_class": size_class, "parents": parents, "mix": mix, "tokens": toks, "ops": ops}
 
 
@@ -460,8 +481,10 @@ class Run:
         if form.startswith("db"):
             c = self.db_content(i, form)
             o = Token.from_database_tuple(prev, sig, chash, c)
+            if o.content is None and c is not None and sha3(c) == chash:
+                self.ctx.count("fromdb:bound-content-dropped(unjudged)")
             if (o.previous_token_hash, o.content_hash, o.signature) != (prev, chash, sig) or \
-                    o.content != (c if (c is not None and sha3(c) == chash) else None):
+                    (o.content is not None and (o.content != c or sha3(c) != chash)):
                 self.fail("Token.from_database_tuple:unbound-content",
                           f"from_database_tuple with content {c!r} gives content {o.content!r} "
                           f"(hashes to the pointer: {c is not None and sha3(c) == chash})")
@@ -490,7 +513,7 @@ class Run:
     def fixpoint(self, offered: list[dict]) -> set[bytes]:
         good = {}
         for t in offered:
-            if t["good"]:
+            if t["good"] and wellformed(t):
                 good[tk_hid(t)] = bytes.fromhex(t["prev"])
         inside: set[bytes] = set()
         changed = True
@@ -503,7 +526,8 @@ class Run:
         return inside
 
     def may_overflow(self, offered: list[dict]) -> bool:
-        waiting = {tk_hid(t) for t in offered if t["good"] and bytes.fromhex(t["prev"]) != self.genesis}
+        waiting = {(t["prev"], t["chash"], t["sig"]) for t in offered
+                   if t["good"] and bytes.fromhex(t["prev"]) != self.genesis}
         return len(waiting) > self.sc["cap"]
 
     def check_invariants(self, tree, where: str):
@@ -569,8 +593,9 @@ class Run:
                       f"tokens but are not elements (elements={len(keys)}, expected={len(fix)}, "
                       f"waiting={len(tree.unchained)})")
             return
-        good_rest = {tk_hid(t) for t in self.offered if t["good"]} - fix
-        unc = {sha3(u.previous_token_hash + u.content_hash + u.signature) for u in tree.unchained}
+        good_rest = {tk_hid(t) for t in self.offered if t["good"] and wellformed(t)} - fix
+        unc = {sha3(u.previous_token_hash + u.content_hash + u.signature) for u in tree.unchained
+               if len(u.previous_token_hash) == 32 and len(u.content_hash) == 32}      # re-split copies may wait or not
         if unc != good_rest:
             self.fail("TokenTree.unchained:wrong-waiting-set",
                       f"{where}: waiting tokens {sorted(map(id8, unc))} but the valid unconnected offered tokens are "
@@ -580,7 +605,7 @@ class Run:
     def expected_path(self, tree, i: int, maxdepth: int):
         """root path of descriptor i through the CURRENT elements, by ground truth; None = no path within depth"""
         t = self.toks[i]
-        if not t["good"] or maxdepth <= 0:
+        if not t["good"] or maxdepth <= 0 or not wellformed(t):
             return None
         goodh = {tk_hid(x) for x in self.toks if x["good"]}
         path = [self.hid[i]]
@@ -601,7 +626,7 @@ class Run:
     # -- the run -----------------------------------------------------------------------------------------
     def run(self, ops=None) -> None:
         sc = self.sc
-        tree = self.new_tree(own=bool(sc.get("own")))
+        tree = self.new_tree(own=bool(sc.get("own") or sc.get("owner_tree")))
         if self.with_lines:
             if self.share is None:
                 self.line(f"key {hx(self.genesis)} {self.siglen}", "ok")
@@ -632,13 +657,16 @@ class Run:
                     if empty_before and carried is not None and self.toks[i]["good"]:
                         now = tree.elements[self.hid[i]].content
                         want = carried if sha3(carried) == bytes.fromhex(self.toks[i]["chash"]) else None
-                        if now != want:
+                        if want is not None and now != want:
+                            self.ctx.count("handover:bound-content-not-taken(unjudged)")
+                        if want is None and now is not None:
                             self.fail("TokenTree.gather_token:content-handover",
                                       f"op {n}: a duplicate carrying {'bound' if want is not None else 'foreign'} content "
                                       f"{carried!r} was offered for the stored, content-less token {id8(self.hid[i])}; "
                                       f"the stored token now holds {now!r}")
                     k = "none" if res is None else ("added" if res is tok else "shadow")
                     self.ctx.count(f"gather:{k}")
+                    k = "none" if res is None else "some"      # which object comes back is not compared
                     self.ctx.count(f"offered:{self.toks[i]['label']}")
                     self.line(f"gather {nm}", f"{k} {self.state(tree)}")
                     self.check_invariants(tree, f"after op {n} gather({i},{form})")
@@ -672,6 +700,29 @@ class Run:
                     nm = self.name(i, form)
                     self.line(f"append {nm}", self.state(tree))
                     self.check_invariants(tree, f"after op {n} add(after={parent})")
+                elif kind == "rawadd":    # side experiment on a tree of its own (implementation only)
+                    raw = bytes.fromhex(op[1])
+                    own2 = self.TokenTree(private_key=self.sk)
+                    first = own2.add(b"first")
+                    try:
+                        own2.add_by_hash(raw, first)
+                        accepted = True
+                    except (RuntimeError, ValueError):
+                        accepted = False
+                    self.ctx.count(f"rawadd:{len(raw)}-byte-pointer:{'accepted' if accepted else 'refused'}")
+                    if accepted:
+                        dump = own2.serialize_public()
+                        reader = self.TokenTree(public_key=self.pub)
+                        try:
+                            okr = reader.unserialize_public(dump)
+                            same = set(reader.elements) == set(own2.elements)
+                        except Exception as e:
+                            okr, same = f"{type(e).__name__}", False
+                        if not same:
+                            self.fail("TokenTree.add_by_hash:pointer-does-not-round-trip",
+                                      f"add_by_hash accepted and signed a {len(raw)}-byte content pointer; the public "
+                                      f"serialisation of that tree ({len(dump)} bytes) reloads with {okr} to "
+                                      f"{len(reader.elements)} of {len(own2.elements)} tokens")
                 elif kind == "load":      # what a database load does: elements written without any check
                     _, i, form = op
                     tok = self.obj(i, form)
@@ -784,14 +835,14 @@ class Run:
                         overflow_possible = False
                     else:
                         i = op[1]
-                        if self.hid[i] not in tree.elements:
+                        if self.hid[i] not in tree.elements or not wellformed(self.toks[i]):
                             # serialize_public(up_to=<anything>) starts with that token, whatever it is; a reader must
                             # still end up with good, connected tokens only
                             self.ctx.count("reload_upto:not-an-element(soundness-only)")
                             sb = tree.serialize_public(self.obj(i, "hash"))
                             t2 = self.new_tree()
                             good_signed = {bytes.fromhex(t["prev"]) + bytes.fromhex(t["chash"]) + bytes.fromhex(t["sig"]): t
-                                           for t in self.toks if t["good"]}
+                                           for t in self.toks if t["good"] and wellformed(t)}
                             self.offered = []
                             for j in range(0, len(sb) - self.chunk + 1, self.chunk):
                                 ch = sb[j:j + self.chunk]
@@ -846,7 +897,7 @@ class Run:
                         self.offered = []
                     # ground truth for the chunks: a chunk is good iff it is byte-identical to a good offered token
                     good_signed = {bytes.fromhex(t["prev"]) + bytes.fromhex(t["chash"]) + bytes.fromhex(t["sig"]): t
-                                   for t in self.toks if t["good"]}
+                                   for t in self.toks if t["good"] and wellformed(t)}
                     for j in range(0, len(s) - self.chunk + 1, self.chunk):
                         ch = s[j:j + self.chunk]
                         self.reg_fields(ch[:32], ch[32:64], ch[64:])
@@ -861,7 +912,15 @@ class Run:
                     except struct.error:
                         flag = "error"
                     self.ctx.count(f"unser_mut:{how}:{flag}")
-                    self.line(f"unser {hx(s)}", f"{flag} {self.state(target)}")
+                    if len(s) % self.chunk != 0 and flag != "error":
+                        # a short tail: today struct.error after the whole chunks were gathered; refusing it any
+                        # other way (False, nothing gathered, ...) is as good - not compared with the model
+                        self.ctx.count("unser_mut:short-tail-not-struct-error(uncompared)")
+                        if flag == "true":
+                            self.fail("TokenTree.unserialize_public:true-with-rejected-chunk",
+                                      "unserialize_public returned True for a string with a partial last chunk")
+                    else:
+                        self.line(f"unser {hx(s)}", f"{flag} {self.state(target)}")
                     if flag == "true":
                         lost = [id8(sha3(s[j:j + self.chunk])) for j in range(0, len(s), self.chunk)
                                 if sha3(s[j:j + self.chunk]) not in target.elements]
@@ -977,7 +1036,7 @@ def canon_model(ln: str, reply: str, r: Run) -> str:
         for p in parts:
             if p in ("invalid", "orphan"):
                 p = "none"
-            elif op == "offer" and p in ("shadow", "added"):
+            elif op in ("offer", "gather") and p in ("shadow", "added"):
                 p = "some"
             elif p.startswith("E="):
                 p = "E=" + ",".join(sorted(x for x in p[2:].split(",") if x))
@@ -1015,6 +1074,7 @@ def run_random(ctx: Ctx, n_scen: int, n_orders: int, use_model: bool, size_class
     for k in range(n_scen):
         sc = make_scenario(rng, size_class)
         ctx.count(f"shape:{sc['shape']}")
+        ctx.count("tree:%s" % ("owner(private_key)" if sc.get("owner_tree") else "reader(public_key)"))
         ctx.count(f"order:{sc['order']}")
         ctx.count(f"size:{sc['size_class']}")
         ctx.count(f"key:{sc['keytype']}")
@@ -1080,7 +1140,8 @@ def make_loaded_scenario(rng) -> dict:
     if rng.random() < 0.5:
         ops.append(["serupto", rng.randrange(len(toks))])
     return {"key": keyhex, "fkey": fkeyhex, "keytype": keytype, "cap": 100, "shape": "loaded", "order": "loaded",
-            "size_class": "loaded", "parents": parents, "mix": mix, "tokens": toks, "ops": ops, "loaded": True}
+            "size_class": "loaded", "parents": parents, "mix": mix, "tokens": toks, "ops": ops, "loaded": True,
+            "owner_tree": rng.random() < 0.4}
 
 
 def run_loaded(ctx: Ctx, n_scen: int, use_model: bool):
@@ -1088,6 +1149,7 @@ def run_loaded(ctx: Ctx, n_scen: int, use_model: bool):
     for k in range(n_scen):
         sc = make_loaded_scenario(ctx.rng)
         ctx.count("shape:loaded")
+        ctx.count("loaded:tree:%s" % ("owner(private_key)" if sc.get("owner_tree") else "reader(public_key)"))
         r = Run(ctx, sc, use_model)
         r.run()
         runs.append(r)
@@ -1487,8 +1549,10 @@ def forest_shapes(n: int):
     return out
 
 
-EXTRA_KINDS = ["forged-sig", "foreign", "dangling", "duplicate", "duplicate-foreign-content", "wrong-content"]
-_BUILD_KIND = {"forged-sig": "forged-sig", "foreign": "foreign", "dangling": "dangling", "wrong-content": "forged-chash"}
+EXTRA_KINDS = ["forged-sig", "foreign", "dangling", "duplicate", "duplicate-foreign-content", "wrong-content",
+               "resplit"]
+_BUILD_KIND = {"forged-sig": "forged-sig", "foreign": "foreign", "dangling": "dangling", "wrong-content": "forged-chash",
+               "resplit": "resplit"}
 
 
 def run_exhaustive(ctx: Ctx, sizes, use_model: bool, extra_kinds=None, tag="plain", one_kind_per_shape=False):
@@ -1606,8 +1670,8 @@ def run(ctx: Ctx):
     run_deep(ctx)
     # exhaustive small scope.  The property asks for "every tree shape with up to 6 tokens and every permutation of
     # their arrival, mixed with forged signatures, tokens of other keys, duplicates and wrong content":
-    #   quick    : plain <= 4 tokens; <= 3 tokens + one extra item of each of the five kinds (<= 4 items)
-    #   thorough : plain <= 6 tokens; <= 5 tokens + one extra item of each of the five kinds (<= 6 items)
+    #   quick    : plain <= 4 tokens; <= 3 tokens + one extra item of each kind (<= 4 items)
+    #   thorough : plain <= 6 tokens; <= 5 tokens + one extra item of each kind (<= 6 items)
     # More than one extra item per history is covered by the random scenarios only; evidence key
     # coverage.small_scope_enumeration (coverage.exhaustive stays false).
     run_exhaustive(ctx, range(1, ctx.scale(4, 6) + 1), ctx.model_ok)
